@@ -169,7 +169,10 @@ func VerifC14TaskAPI(v *vrt.T) {
 		if v.Choose("defined "+id, 2) == 0 {
 			continue
 		}
-		d := verifC14Def{script: scripts[v.Choose("script "+id, 2)], enabled: v.Choose("enabled "+id, 2) == 1, dbrps: dbrpSets[v.Choose("dbrps "+id, 2)]}
+		d := verifC14Def{script: scripts[0], dbrps: dbrpSets[0]}
+		if id == "a" || v.Bound("bfull", 1) == 1 { // bfull=0 (two-step tier): task b, if defined, has one fixed definition
+			d = verifC14Def{script: scripts[v.Choose("script "+id, 2)], enabled: v.Choose("enabled "+id, 2) == 1, dbrps: dbrpSets[v.Choose("dbrps "+id, 2)]}
+		}
 		t := Task{ID: id, Type: StreamTask, TICKscript: d.script, DBRPs: append([]DBRP{}, d.dbrps...)}
 		if d.enabled {
 			t.Status = Enabled
